@@ -110,9 +110,11 @@ def _handlers():
     return {"get_fluid": get_fluid}
 
 
-def r7_1(run):
+def r7_1(run, only=None, floor=40, residual_only=False):
+    """only: optional set of selection aliases to restrict the comparison to (used by the properties whose law the kernels
+    implement: the law is compared with the numpy twin there, and this rule carries it over to the numba twin)"""
     ix = run.index
-    pairs = twin_pairs(ix)
+    pairs = [p for p in twin_pairs(ix) if only is None or p[0] in only]
     rng = random.Random(run.seed)
     npts = 48 if run.tier == "quick" else 512
     n_pairs = 0
@@ -165,6 +167,8 @@ def r7_1(run):
                            detail=d[:1] or None)
         for i, (a, b) in enumerate(zip(k_np.outputs, k_nb.outputs)):
             name = k_np.output_names[i]
+            if residual_only and (name.startswith("df") or name.startswith("der_") or name.startswith("d") and "_d" in name):
+                continue        # Jacobian entries steer the iteration; the law concerns the residual and the reported quantities
             d, rows, numonly = compare(_tonum(a), _tonum(b), rng, npts)
             run.stat("decision_table_rows", rows)
             run.stat("rows_equal_only_numerically", numonly)
@@ -178,7 +182,7 @@ def r7_1(run):
                        % (i, name, dd["left"][:160], dd["right"][:160], dd["guard"][:200]),
                        run.where(f_nb, f_nb.node), detail=dd)
     run.stat("twin_pairs", n_pairs)
-    run.floor(40)
+    run.floor(floor)
 
 
 def r7_2(run):
